@@ -48,7 +48,11 @@ type nilAn struct {
 	nrets     map[*ssa.Function]map[int]string
 	ptrMemo   map[types.Type]bool
 	hasCaller map[*ssa.Function]bool
-	changed   bool
+	// stored: "<interface>.<Name>|<type>" for every persistent-state setter
+	// Set<Name> that some region code calls with decoder-filled data of that
+	// type: the getter <Name> hands the same data back in a later request
+	stored  map[string]bool
+	changed bool
 }
 
 func isPtrLike(t types.Type) bool {
@@ -382,6 +386,29 @@ func (n *nilAn) scan(fn *ssa.Function) {
 						if n.deepPtr(deref(tgt.Type())) {
 							n.storeD(tgt)
 							n.markD(tgt)
+						}
+					}
+				}
+				if i := strings.LastIndex(cal.Name, "."); i > 0 && strings.HasSuffix(cal.Name[:i], "PersistentState") {
+					iface, method := cal.Name[:i], cal.Name[i+1:]
+					if n.stored == nil {
+						n.stored = map[string]bool{}
+					}
+					if strings.HasPrefix(method, "Set") {
+						for _, a := range args {
+							if n.deepPtr(a.Type()) && (n.dvals[a] || n.decodedMem(a)) {
+								k := iface + "." + method[3:] + "|" + a.Type().String()
+								if !n.stored[k] {
+									n.stored[k] = true
+									n.changed = true
+								}
+							}
+						}
+					} else if v := call.Value(); v != nil {
+						for _, ref := range *v.Referrers() {
+							if ex, ok := ref.(*ssa.Extract); ok && n.stored[cal.Name+"|"+ex.Type().String()] {
+								n.markD(ex)
+							}
 						}
 					}
 				}
